@@ -84,6 +84,10 @@ func tableTemplates(c *CheckRun) []histB {
 	mp := c.Eng.constInt("maxPrefixLen", 10)
 	k0, k1, k2 := cSpec(0, mp+2), cSpec(1, mp+2), cSpec(2, mp+3)
 	out = append(out, histB{kind: 17, ops: [][2]int{{opInsert, k0}, {opInsert, k1}, {opInsert, k2}}, probes: []int{k1}, label: "table long encodings"})
+	// four stemmed 14-byte encodings: a branch at byte 0, long shared runs, late divergence
+	st := func(id int) int { return id | 1<<12 }
+	out = append(out, histB{kind: 17, ops: [][2]int{{opInsert, st(0)}, {opInsert, st(1)}, {opInsert, st(2)}, {opInsert, st(3)}}, probes: []int{st(0)}, label: "table stemmed 14-byte encodings"})
+	out = append(out, histB{kind: 17, ops: [][2]int{{opInsert, st(0)}, {opInsert, st(1)}, {opInsert, st(2)}, {opDelete, st(1)}}, probes: []int{st(2)}, label: "table stemmed 14-byte encodings"})
 	// schema codec uint16 ‖ string ‖ 00
 	for _, seq := range opSeqs(2, []int{0, 1, 2}, true) {
 		out = append(out, histB{kind: 18, ops: seq, probes: []int{1}, label: "schema uint16+string n=2"})
@@ -192,6 +196,9 @@ func nodeScenarios(c *CheckRun) []*Scenario {
 			continue
 		}
 		for v := 0; v < variants; v++ {
+			if sh.low {
+				continue
+			}
 			tot := sh.m
 			if sh.from > tot {
 				tot = sh.from
@@ -241,7 +248,9 @@ func twoTemplates(c *CheckRun, pool int) []*Scenario {
 				}
 				return b
 			}
-			for _, b := range bs {
+			// tree B uses a different byte set, so that anything tree A left behind in a recycled node stays visible
+			bsB := fanBytes(cls.grow, c.Seed+7, 3)
+			for _, b := range bsB {
 				ops = append(ops, [3]int{1, opInsertC, conc(b)})
 			}
 			big := cls.grow > 5
@@ -263,7 +272,7 @@ func twoTemplates(c *CheckRun, pool int) []*Scenario {
 			}
 			pa, pb := aSpec(0, 1), aSpec(0, 1)
 			if big {
-				pb = conc(bs[0]) | 1<<30
+				pb = conc(bsB[0]) | 1<<30
 			}
 			p = append(p, pa, pb)
 			out = append(out, &Scenario{Harness: "hTwo", Params: p, MaxSteps: 300_000_000, Label: fmt.Sprintf("F-two %s released by A, acquired by B (%s), pool=%d", name, kindNames[kb], pool)})
@@ -394,7 +403,8 @@ func init() {
 	})
 	register(&CheckSpec{
 		ID: "C16", Level: "other", Summaries: true,
-		Rule: "non-interference argument whose premises the solver-backed executor checks on the real code: (i) in two-tree interleavings no memory location is touched by operations of both trees (with a write among them) except objects handed over through sync.Pool.Put/Get, and no package-level variable is written outside init; (ii) read-only queries on byte-string/numeric trees perform no store to memory that existed before the call. Under (i),(ii) every interleaving of such operations is data-race free and equivalent to a sequential one (ownership argument; Go memory model and sync.Pool trusted).",
+		RaceTags: []string{"C16 two trees touched the same memory outside the synchronised pool (or wrote package-level state)", "C16 a query stored to memory that existed before the call"},
+		Rule:     "non-interference argument whose premises the solver-backed executor checks on the real code: (i) in two-tree interleavings no memory location is touched by operations of both trees (with a write among them) except objects handed over through sync.Pool.Put/Get, and no package-level variable is written outside init; (ii) read-only queries on byte-string/numeric trees perform no store to memory that existed before the call. Under (i),(ii) every interleaving of such operations is data-race free and equivalent to a sequential one (ownership argument; Go memory model and sync.Pool trusted).",
 		Scenarios: func(c *CheckRun) []*Scenario {
 			out := twoTemplates(c, 0)
 			// reader premise: the pure queries of C15 (which <= 5) on every family
@@ -455,6 +465,22 @@ func retainScenarios(c *CheckRun) []*Scenario {
 			out = append(out, s)
 		}
 	}
+	// single-method query histories (a mixed cycle can hide a leak that another method resets)
+	for _, cy := range []int{10, 11, 12, 13, 14, 15} {
+		for _, kind := range []int{14, 15, 16} {
+			k0, k1, k2 := cSpec(0, 2), cSpec(3, 2), cSpec(2, 3)
+			b := histB{kind: kind, mask: ckRetain, ops: [][2]int{{opInsert, k0}, {opInsert, k1}, {opInsert, k2}}, extra: []int{cy, k1}, label: "coll retained, single-method queries"}
+			s := b.scn()
+			s.Harness = "hColl"
+			out = append(out, s)
+		}
+		out = append(out, histB{kind: kindAlphaB, mask: ckRetain, ops: [][2]int{{opInsert, aSpec(0, 2)}, {opInsert, aSpec(0, 2)}, {opInsert, aSpec(0, 1)}}, extra: []int{cy, aSpec(0, 2)}, label: "single-method queries"}.scn())
+		out = append(out, histB{kind: kindI64, mask: ckRetain, ops: [][2]int{{opInsert, 0}, {opInsert, 0}}, extra: []int{cy, 0}, label: "single-method queries"}.scn())
+		tb := histB{kind: 17, mask: ckRetain, ops: [][2]int{{opInsert, cSpec(0, 2)}, {opInsert, cSpec(1, 2)}}, extra: []int{cy, cSpec(0, 2)}, label: "table retained, single-method queries"}
+		ts := tb.scn()
+		ts.Harness = "hCompound"
+		out = append(out, ts)
+	}
 	// collation (the shared collate.Buffer is part of what the tree keeps alive) and compound trees
 	for cy := 0; cy <= 3; cy++ {
 		for _, kind := range []int{14, 15, 16} {
@@ -488,6 +514,12 @@ func gcScenarios(c *CheckRun) []*Scenario {
 			out = append(out, simple("hGC", fmt.Sprintf("tree %s, value type %s", kindNames[k], []string{"*int", "string", "[]int", "struct{}", "[16]uint64"}[v]), k, v, n))
 		}
 	}
+	// keys sharing 100 and 300 bytes: compressed paths longer than a node4 / node16 object, with Range over them
+	for _, stem := range []int{100, 300} {
+		for _, v := range []int{0, 4} {
+			out = append(out, simple("hGC", fmt.Sprintf("byte-string keys sharing %d bytes, Range", stem), 0, v, 2, stem))
+		}
+	}
 	return out
 }
 
@@ -503,7 +535,8 @@ func init() {
 	})
 	register(&CheckSpec{
 		ID: "C18", Level: "model_checking", Summaries: true, Rule: stateRule,
-		Scenarios: gcScenarios,
+		ReplayGcflags: "all=-d=checkptr",
+		Scenarios:     gcScenarios,
 		Bounds: []string{"value types *int, string, []int, struct{}, [16]uint64 × trees byte-string []byte/string, uint16, int16, float32, collation string; 1-3 symbolic inserts, one overwrite, one delete, read-back by Search, All and (numeric kinds) Range",
 			"every unsafe.Pointer -> *T conversion on every path is checked against the object actually pointed to: identical type, first-field / enclosing-struct, same-size scalar, or identical flattened layout (offsets, sizes, pointer-ness) — anything else is a fault; uintptr<->unsafe.Pointer conversions and unsafe.Slice beyond the allocation are faults"},
 		Outside:     []string{"the garbage collector itself cannot be run symbolically: the claim is that the code obeys the unsafe.Pointer rules that make collector timing irrelevant, plus value integrity; native replay runs with forced collections", "larger histories"},
